@@ -109,6 +109,13 @@ func KeyHash
     flags assumed
     ensures ret0 == keyHash(bseq(key))
 
+// the 8-byte big-endian encoding of a hash, as used for the key tree; decodeHash is its inverse
+spec decodeHash(b bseq) uint64
+
+func KeyHashEncoded
+    flags assumed
+    ensures decodeHash(bseq(ret0)) == h && len(ret0) == 8 && fresh(region(ret0))
+
 // the index item derived from a record (C11); the timestamp never decreases (C10)
 func (Params).NewItem
     ensures[offpos] ret0.Offset == m.Offset && ret0.Position == position
